@@ -6,6 +6,7 @@ WORDS = ["foo", "bar", "baz", "a", "b", "x", "xx", "Hello", "wörld", "é", "€
 PUNCT = list("!\"#$%&'()*+,-./:;<=>?@[\\]^_`{|}~")
 ENTS = ["&amp;", "&lt;", "&quot;", "&copy;", "&#35;", "&#x22;", "&#X41;", "&#0;", "&#1234567;", "&#xD800;", "&nbsp;", "&ouml;",
         "&AElig;", "&Dcaron;", "&frac34;", "&HilbertSpace;", "&DifferentialD;", "&ClockwiseContourIntegral;", "&ngE;",
+        "&#xDFFF;", "&#57343;", "&#xD7FF;", "&#xE000;", "&#xFDD0;", "&#xFDEF;", "&#xFDCF;", "&#xFDF0;", "&#xFFFE;", "&#x1FFFF;", "&#x10FFFE;", "&#8;", "&#11;", "&#14;", "&#31;", "&#127;", "&#159;", "&#160;",
         "&#12345678;", "&#x1234567;", "&amp", "&x;", "&#;", "&#x;", "&MadeUpEntity;", "&#xFFFF;", "&#x10FFFF;", "&#x110000;", "&#65;", "&#9;"]
 URLS = ["/url", "http://example.com/a?b=c&d", "foo%20bar", "javascript:alert(1)", "JaVaScRiPt:x", "data:image/png;base64,AA",
         "data:text/html,x", "vbscript:x", "file:///etc", "#frag", "<a b>", "/a(b)c", "/a\\)b", "mailto:x@y.z", "ä/ö", "a b",
